@@ -788,6 +788,7 @@ func (p *proxy) forwardProduce(ctx context.Context, header *protocol.RequestHead
 			if r.subResp.ThrottleMillis > merged.ThrottleMillis {
 				merged.ThrottleMillis = r.subResp.ThrottleMillis
 			}
+			addErrorForUnansweredPartitions(merged, r.subReq, r.subResp, protocol.REQUEST_TIMED_OUT)
 		}
 
 		if len(failedPartitions) == 0 {
@@ -921,6 +922,53 @@ func addErrorForAllPartitions(resp *kmsg.ProduceResponse, req *kmsg.ProduceReque
 				ErrorCode:  errorCode,
 				BaseOffset: -1,
 			})
+		}
+	}
+}
+
+// addErrorForUnansweredPartitions adds an error entry for every partition of the
+// sub-request that the backend's (decodable) reply does not mention, so the merged
+// reply still has one entry per requested partition.
+func addErrorForUnansweredPartitions(resp *kmsg.ProduceResponse, req *kmsg.ProduceRequest, sub *kmsg.ProduceResponse, errorCode int16) {
+	answered := make(map[string]map[int32]bool, len(sub.Topics))
+	for _, topic := range sub.Topics {
+		if answered[topic.Topic] == nil {
+			answered[topic.Topic] = make(map[int32]bool, len(topic.Partitions))
+		}
+		for _, part := range topic.Partitions {
+			answered[topic.Topic][part.Partition] = true
+		}
+	}
+	for _, topic := range req.Topics {
+		for _, part := range topic.Partitions {
+			if answered[topic.Topic][part.Partition] {
+				continue
+			}
+			tr := findOrAddTopicResponse(resp, topic.Topic)
+			tr.Partitions = append(tr.Partitions, kmsg.ProduceResponseTopicPartition{Partition: part.Partition, ErrorCode: errorCode, BaseOffset: -1})
+		}
+	}
+}
+
+// addFetchErrorForUnansweredPartitions is the fetch counterpart of
+// addErrorForUnansweredPartitions.
+func addFetchErrorForUnansweredPartitions(resp *kmsg.FetchResponse, req *kmsg.FetchRequest, sub *kmsg.FetchResponse, errorCode int16) {
+	var zeroID [16]byte
+	for _, topic := range req.Topics {
+		answered := make(map[int32]bool, len(topic.Partitions))
+		for _, st := range sub.Topics {
+			if (topic.TopicID != zeroID && st.TopicID == topic.TopicID) || (topic.TopicID == zeroID && st.Topic == topic.Topic) {
+				for _, part := range st.Partitions {
+					answered[part.Partition] = true
+				}
+			}
+		}
+		for _, part := range topic.Partitions {
+			if answered[part.Partition] {
+				continue
+			}
+			tr := findOrAddFetchTopicResponse(resp, topic.Topic, topic.TopicID)
+			tr.Partitions = append(tr.Partitions, kmsg.FetchResponseTopicPartition{Partition: part.Partition, ErrorCode: errorCode})
 		}
 	}
 }
@@ -1778,6 +1826,7 @@ func (p *proxy) forwardFetch(ctx context.Context, header *protocol.RequestHeader
 			if r.subResp.ThrottleMillis > merged.ThrottleMillis {
 				merged.ThrottleMillis = r.subResp.ThrottleMillis
 			}
+			addFetchErrorForUnansweredPartitions(merged, r.subReq, r.subResp, protocol.REQUEST_TIMED_OUT)
 		}
 
 		if len(failedPartitions) == 0 {
